@@ -12,27 +12,30 @@ _AXES = (['child'] * 30 + ['descendant'] * 8 + ['descendant-or-self'] * 4 + ['pa
          ['preceding-sibling'] * 8 + ['self'] * 4 + ['attribute'] * 7 + ['namespace'] * 3)
 _axis = st.sampled_from(_AXES)
 
-_elem_name = st.tuples(st.just('name'), st.sampled_from([None, None, None, None, 'p', 'q']), st.sampled_from(gx.ELEM_LOCALS)).map(list)
-_attr_name = st.tuples(st.just('name'), st.sampled_from([None, None, 'p', 'q', 'xml']), st.sampled_from(gx.ATTR_LOCALS)).map(list)
-_ns_name = st.tuples(st.just('name'), st.none(), st.sampled_from(['p', 'q', 's', 'xml'])).map(list)
+_elem_name = st.tuples(st.just('name'), st.sampled_from([None, None, None, None, 'p', 'q', 'r']), st.sampled_from(gx.ELEM_LOCALS)).map(list)
+_attr_name = st.tuples(st.just('name'), st.sampled_from([None, None, 'p', 'q', 'r', 'xml']), st.sampled_from(gx.ATTR_LOCALS)).map(list)
+_ns_name = st.tuples(st.just('name'), st.none(), st.sampled_from(['p', 'q', 's', 'r', 'xml'])).map(list)
 _pi = st.tuples(st.just('pi'), st.sampled_from([None, 'x', 'y', 'pi', 'xml-stylesheet'])).map(list)
 
 _any, _node = st.just(['any']), st.just(['node'])
+# namespace wildcards p:* q:* r:* are frequent on every axis: urn:p is a proper string prefix of urn:pp (prefix r)
+_nsany = st.sampled_from([['nsany', 'p'], ['nsany', 'p'], ['nsany', 'r'], ['nsany', 'r'], ['nsany', 'q']])
+_nsany_attr = st.sampled_from([['nsany', 'p'], ['nsany', 'p'], ['nsany', 'r'], ['nsany', 'r'], ['nsany', 'q'], ['nsany', 'xml']])
 _TEST_ELEM = st.one_of(_elem_name, _elem_name, _elem_name, _elem_name, _any, _any, _any, _any, _node, _node, _node, _node,
-                       st.sampled_from([['nsany', 'p'], ['nsany', 'q']]), st.just(['text']), st.just(['text']),
-                       st.just(['comment']), _pi)
+                       _nsany, _nsany, _nsany, st.just(['text']), st.just(['text']), st.just(['comment']), _pi)
 _TEST_ATTR = st.one_of(_attr_name, _attr_name, st.just(['any']), st.just(['any']), st.just(['node']),
-                       st.sampled_from([['nsany', 'p'], ['nsany', 'xml']]), st.just(['text']))
+                       _nsany_attr, _nsany_attr, st.just(['text']))
 _TEST_NS = st.one_of(_ns_name, st.just(['any']), st.just(['any']), st.just(['node']), st.just(['comment']))
 
 _LITERALS = ('t', '1', 'x y', 'v', ' ', '', 'tt', 'd')
 _OPS = ('=', '!=', '<', '>', '<=', '>=')
 
 
-_LOOSE_ELEM = st.one_of(_any, _any, _any, _node, _node, _node, _node,
+_LOOSE_ELEM = st.one_of(_any, _any, _any, _node, _node, _node, _node, _nsany,
                         st.tuples(st.just('name'), st.none(), st.sampled_from(gx.ELEM_LOCALS)).map(list),
                         st.tuples(st.just('name'), st.none(), st.sampled_from(gx.ELEM_LOCALS)).map(list), st.just(['text']))
-_LOOSE_ATTR = st.one_of(_any, _any, _node, st.tuples(st.just('name'), st.none(), st.sampled_from(gx.ATTR_LOCALS)).map(list))
+_LOOSE_ATTR = st.one_of(_any, _any, _node, _nsany_attr,
+                        st.tuples(st.just('name'), st.none(), st.sampled_from(gx.ATTR_LOCALS)).map(list))
 _LOOSE_NS = st.one_of(_any, _node)
 
 
@@ -63,6 +66,63 @@ def _rel_path(draw, depth, max_steps):
     return ['path', 0, [draw(_step(depth)) for _ in range(n)]]
 
 
+_ALL_AXES = ('child', 'descendant', 'descendant-or-self', 'following', 'following-sibling', 'self', 'attribute', 'namespace',
+             'parent', 'ancestor', 'ancestor-or-self', 'preceding', 'preceding-sibling')
+_REVERSE = ('parent', 'ancestor', 'ancestor-or-self', 'preceding', 'preceding-sibling')
+_SIMPLE_ATTR = st.sampled_from([['any'], ['any'], ['name', None, 'x'], ['name', None, 'y'], ['name', None, 'id'], ['nsany', 'p'], ['nsany', 'r']])
+
+
+@st.composite
+def _easy_pred(draw):
+    """a non-positional predicate that is often true: [@x] [@*] [node()] [@x = 'v'] [not(@y)]"""
+    k = draw(st.integers(0, 11))
+    att = ['path', 0, [['/', 'attribute', draw(_SIMPLE_ATTR), [], 1]]]
+    if k < 4:
+        return ['exists', att]
+    if k < 6:
+        return ['exists', ['path', 0, [['/', 'child', ['node'], [], 1]]]]
+    if k < 8:
+        return ['not', ['exists', att]]
+    if k < 9:
+        return ['cmp', att, draw(st.sampled_from(['=', '!='])), draw(st.sampled_from(['v', 't', '1', '']))]
+    if k < 10:
+        return ['exists', ['path', 0, [['/', 'self', ['node'], [], 0]]]]
+    return ['count', ['path', 0, [['/', 'child', ['any'], [], 1]]], draw(st.sampled_from(['>=', '<', '='])), draw(st.integers(0, 1))]
+
+
+_positional = st.one_of(st.sampled_from([['num', 1], ['num', 1], ['num', 2], ['last'], ['lastminus', 1]]),
+                        st.tuples(st.just('pos'), st.sampled_from(_OPS), st.integers(1, 3)).map(list))
+
+
+@st.composite
+def paren_step(draw, depth=0):
+    """(axis::test)[p1][p2]([p3]): a parenthesised single step is a FILTER expression - every predicate numbers in
+    document order, whatever the axis (XPath 1.0 2.4 / 3.3).  All 13 axes, reverse axes half of the time; the last
+    predicate is positional, the earlier ones mostly not; optionally followed by one more step."""
+    axis = draw(st.sampled_from(_REVERSE)) if draw(st.booleans()) else draw(st.sampled_from(_ALL_AXES))
+    test = draw(_test_for(axis, loose=draw(st.integers(0, 3)) > 0))
+    inner_preds = [draw(_easy_pred())] if draw(st.integers(0, 5)) == 0 else []
+    npred = draw(st.sampled_from([2, 2, 2, 3]))
+    preds = []
+    for i in range(npred - 1):
+        preds.append(draw(_positional) if draw(st.integers(0, 4)) == 0 else draw(_easy_pred()))
+    preds.append(draw(_positional))
+    steps = []
+    if depth == 0 and draw(st.integers(0, 2)) == 0:
+        steps.append(draw(st.sampled_from([['/', 'attribute', ['any'], [], 1], ['/', 'attribute', ['name', None, 'id'], [], 1],
+                                           ['/', 'child', ['node'], [], 1], ['/', 'parent', ['node'], [], 1],
+                                           ['//', 'child', ['any'], [], 1]])))
+    return ['fpath', ['path', 0, [['/', axis, test, inner_preds, draw(st.integers(0, 1))]]], preds, steps]
+
+
+@st.composite
+def _operand(draw, depth):
+    """path operand of exists / = / count() inside a predicate"""
+    if draw(st.integers(0, 2)) == 0:
+        return draw(paren_step(depth))
+    return draw(_rel_path(depth, 2))
+
+
 @st.composite
 def _pred(draw, depth):
     k = draw(st.integers(0, 19))
@@ -77,11 +137,11 @@ def _pred(draw, depth):
     if depth >= 2:
         return ['num', draw(st.integers(1, 2))]
     if k < 14:
-        return ['exists', draw(_rel_path(depth + 1, 2))]
+        return ['exists', draw(_operand(depth + 1))]
     if k < 16:
-        return ['cmp', draw(_rel_path(depth + 1, 2)), draw(st.sampled_from(['=', '=', '!='])), draw(st.sampled_from(_LITERALS))]
+        return ['cmp', draw(_operand(depth + 1)), draw(st.sampled_from(['=', '=', '!='])), draw(st.sampled_from(_LITERALS))]
     if k < 17:
-        return ['count', draw(_rel_path(depth + 1, 2)), draw(st.sampled_from(_OPS)), draw(st.integers(0, 2))]
+        return ['count', draw(_operand(depth + 1)), draw(st.sampled_from(_OPS)), draw(st.integers(0, 2))]
     if k < 18:
         return ['not', draw(_pred(depth + 1))]
     return [draw(st.sampled_from(['and', 'or'])), draw(_pred(depth + 1)), draw(_pred(depth + 1))]
@@ -97,7 +157,7 @@ def _path(draw, max_steps, depth=0):
 
 @st.composite
 def path_asts(draw, max_steps=4):
-    k = draw(st.integers(0, 19))
+    k = draw(st.integers(0, 25))
     if k < 15:
         return draw(_path(max_steps))
     if k < 18:
@@ -105,4 +165,14 @@ def path_asts(draw, max_steps=4):
         preds = [draw(_pred(1)) for _ in range(draw(st.integers(0, 2)))]
         steps = [draw(_step(0)) for _ in range(draw(st.integers(0, 2)))]
         return ['fpath', inner, preds, steps]
-    return ['union', draw(st.lists(_path(3), min_size=2, max_size=3))]
+    if k < 20:
+        return ['union', draw(st.lists(_path(3), min_size=2, max_size=3))]
+    if k < 23:
+        return draw(paren_step(0))
+    # //t[(preceding-sibling::s)[@k][1]/@id = 'x']: the context nodes of the parenthesised step are spread over the tree
+    ps = draw(paren_step(0))
+    pred = ['cmp', ps, draw(st.sampled_from(['=', '!='])), draw(st.sampled_from(_LITERALS))] if draw(st.integers(0, 2)) == 0 \
+        else ['exists', ps]
+    return ['path', draw(st.sampled_from([0, 2, 2, 2])), [['/', draw(st.sampled_from(['child', 'child', 'descendant', 'self'])),
+                                                           draw(st.sampled_from([['any'], ['any'], ['node'], ['node'], ['name', None, 'a']])),
+                                                           [pred], 1]]]
